@@ -47,6 +47,22 @@ type RunConfig struct {
 	MaxSteps     int64
 	Configure    func(in *Interp)
 	Verbose      bool
+	// SolverArgs maps a harness-name prefix to extra solver arguments (a
+	// separate solver process per distinct argument list and worker).
+	SolverArgs map[string][]string
+}
+
+func (c *RunConfig) argsFor(name string) []string {
+	best := ""
+	for p := range c.SolverArgs {
+		if strings.HasPrefix(name, p) && len(p) > len(best) {
+			best = p
+		}
+	}
+	if best == "" {
+		return nil
+	}
+	return c.SolverArgs[best]
 }
 
 type pool struct {
@@ -132,6 +148,7 @@ func RunHarnesses(l *Loaded, fns []*ssa.Function, cfg RunConfig) (map[string]*Ha
 				solver.Log = f
 				defer f.Close()
 			}
+			solvers := map[string]*Solver{"": solver}
 			in := NewInterp(l.Prog, solver)
 			in.AllowInit = allowInit
 			in.KnownIDs = cfg.KnownIDs
@@ -196,10 +213,38 @@ func RunHarnesses(l *Loaded, fns []*ssa.Function, cfg RunConfig) (map[string]*Ha
 					res.runs[j.Fn] = h
 				}
 				in.H = h
+				key := strings.Join(cfg.argsFor(j.Fn.Name()), " ")
+				sv := solvers[key]
+				if sv == nil {
+					var err error
+					sv, err = NewSolver(cfg.SolverKind, cfg.TimeoutMs, cfg.argsFor(j.Fn.Name())...)
+					if err != nil {
+						res.err = err
+						p.done(j.Fn, nil)
+						continue
+					}
+					solvers[key] = sv
+					if w == 0 && os.Getenv("GOSYM_SMTLOG") != "" {
+						f, _ := os.Create(os.Getenv("GOSYM_SMTLOG") + ".profile")
+						sv.Log = f
+					}
+				}
+				in.Solver = sv
 				in.runPath(j.Fn, j.Prefix)
 				p.done(j.Fn, in.newSibs)
 			}
-			res.stats = solver.Stats
+			for k, sv := range solvers {
+				res.stats.Queries += sv.Stats.Queries
+				res.stats.Sat += sv.Stats.Sat
+				res.stats.Unsat += sv.Stats.Unsat
+				res.stats.Unknown += sv.Stats.Unknown
+				res.stats.Errors += sv.Stats.Errors
+				res.stats.Restarts += sv.Stats.Restarts
+				res.stats.Wall += sv.Stats.Wall
+				if k != "" {
+					sv.Close()
+				}
+			}
 		}(w)
 	}
 	wg.Wait()
@@ -326,3 +371,47 @@ func FindHarnesses(pkgs []*ssa.Package, prefixes ...string) []*ssa.Function {
 }
 
 var _ = time.Now
+
+// NewConcreteInterp builds an initialised interpreter for concrete-mode runs.
+func NewConcreteInterp(l *Loaded, cfg RunConfig) (*Interp, func(), error) {
+	solver, err := NewSolver(cfg.SolverKind, cfg.TimeoutMs)
+	if err != nil {
+		return nil, nil, err
+	}
+	in := NewInterp(l.Prog, solver)
+	in.AllowInit = allowInit
+	in.KnownIDs = cfg.KnownIDs
+	if cfg.Tier == "thorough" {
+		in.TierN = 1
+	}
+	for _, pk := range cfg.InitPkgs {
+		registerHarnessIntrinsics(in, pk.Pkg.Path())
+	}
+	if cfg.Configure != nil {
+		cfg.Configure(in)
+	}
+	var ierr error
+	func() {
+		defer func() {
+			if r := recover(); r != nil {
+				ierr = fmt.Errorf("init failed: %v", r)
+			}
+		}()
+		in.H = newHarnessRun("init")
+		in.fpBits = map[*Term]*Term{}
+		in.nondetCount = map[string]int{}
+		in.concNondets = map[string]uint64{}
+		saved := in.MaxSteps
+		in.MaxSteps = 2_000_000_000
+		for _, pk := range cfg.InitPkgs {
+			in.RunInit(pk)
+		}
+		in.MaxSteps = saved
+	}()
+	if ierr != nil {
+		solver.Close()
+		return nil, nil, ierr
+	}
+	in.Snapshot()
+	return in, func() { solver.Close() }, nil
+}
